@@ -6,7 +6,7 @@ fresh manager reads it.  `kept_history`: `Kept` is carried through every covered
 (`Untouched`), each call with a licence that does not name it; `kept_runLicensed`: hence every licence of the history
 is `NotNamed` for the file — the syntactic criterion.
 -/
-import Sdmmc.Lemmas.SurviveRoot
+import Sdmmc.Lemmas.SurviveWalk2
 import Sdmmc.Lemmas.VolCrashFsck
 
 namespace Sdmmc.Lemmas.Survive
@@ -19,111 +19,86 @@ open Sdmmc.Lemmas.ReadRefines (MgrOK)
 
 /-! ### A crash point of one call -/
 
-/-- **At every crash point of a call** issued in a `Kept` state (file of the root directory), licensed by `L`
-(`NotNamed` for the file, no FAT entry of a non-last cluster of the root chain): if the crashed medium is
-crash-consistent (`CrashInv`) and mounts, then (a) it shows the flushed file — slot bytes, chain, FAT entries,
-contents —, (b) the slot is the first hit for the file's name in the root directory, and (c) any fresh manager mounts,
-opens the root directory, opens the file and reads exactly the flushed contents. -/
-theorem kept_crash {v0 : FatVolume} {e : DirEntry} {cs : List Nat} {s : Mgr} {gh : Ghost} (hK : Kept v0 e cs 0 s gh)
-    (hst : Reopen.Storable v0.fatType e) {L : Licence} {ws : List (Nat × Block)} (hwf : LicWF v0 L)
-    (hall : AllLicensed v0 s.dev.disk L ws) (hnn : NotNamed v0 L e.entryBlock e.entryOffset cs)
-    (hav : ∀ c, c ∈ (dirChain gh.vol gh.G 0).dropLast → c ∉ L.fatClusters) (k : Nat) {ghk : Ghost}
-    (hC : CrashInv v0 (crashDisk s.dev.disk ws k) ghk) (idx : Nat) (w : FatVolume)
-    (hmw : mountPure ((crashDisk s.dev.disk ws k).get 0) idx (crashDisk s.dev.disk ws k).get = .ok w) (hsw : SameGeom v0 w) :
-    BlocksOK (crashDisk s.dev.disk ws k) ∧ FlushedOn v0 (crashDisk s.dev.disk ws k) e cs ∧
-    (∀ x, x ∈ cs → fatRaw v0 (crashDisk s.dev.disk ws k) x = fatRaw v0 s.dev.disk x) ∧
-    (∀ n, fileContent v0 (crashDisk s.dev.disk ws k) cs n = fileContent v0 s.dev.disk cs n) ∧
-    Reopen.FirstHit (Reopen.dirSlotsOf v0 (crashDisk s.dev.disk ws k) 0xFFFFFFFC (dirChain v0 ghk.G 0)) e.name
-      (slotOf v0.fatType e) ∧
-    ∀ (t0 : Mgr) (name : List Nat), MgrOK t0 → t0.dev.disk = crashDisk s.dev.disk ws k → t0.vols = [] → t0.dirs = [] →
-      t0.files = [] → 0 < t0.maxVols → 0 < t0.maxDirs → 0 < t0.maxFiles → t0.nextId + 2 < 4294967296 →
-      Sfn.createFromStr name = .ok e.name →
-      ∃ t1 t2 t3, openRawVolume idx t0 = (.ok t0.nextId, t1) ∧
+/-- **At a crash point of a call** issued in a `Kept` state that keeps the file (`SameFile`, from `kept_step`): if the
+crashed medium is crash-consistent (`CrashInv`) and mounts, then (a) it shows the flushed file — slot bytes, chain,
+contents —, the sub-directory entries `ys` still lead from the root directory to the file's directory, (b) the slot is
+the first hit for the file's name in that directory, and (c) any fresh manager mounts, opens the root directory, walks
+the path, opens the file and reads exactly the flushed contents. -/
+theorem kept_crash {v0 : FatVolume} {e : DirEntry} {cs : List Nat} {ys : List Slot} {h : Nat} {s : Mgr} {gh : Ghost}
+    (hK : Kept v0 e cs ys h s gh) (hst : Reopen.Storable v0.fatType e) {dk : Disk}
+    (hS : SameFile v0 e cs gh ys s.dev.disk dk) {ghk : Ghost} (hC : CrashInv v0 dk ghk) (idx : Nat) (w : FatVolume)
+    (hmw : mountPure (dk.get 0) idx dk.get = .ok w) (hsw : SameGeom v0 w) :
+    FlushedOn v0 dk e cs ∧ (∀ n, fileContent v0 dk cs n = fileContent v0 s.dev.disk cs n) ∧
+    PathOn v0.fatType ghk.dirs (dirSlots v0 dk ghk.G) 0 ys h ∧
+    Reopen.FirstHit (dirSlots v0 dk ghk.G h) e.name (slotOf v0.fatType e) ∧
+    ∀ (t0 : Mgr) (names : List (List Nat)) (name : List Nat), MgrOK t0 → t0.dev.disk = dk → t0.vols = [] → t0.dirs = [] →
+      t0.files = [] → 0 < t0.maxVols → ys.length + 1 ≤ t0.maxDirs → 0 < t0.maxFiles →
+      t0.nextId + ys.length + 2 < 4294967296 → Spells names ys → Sfn.createFromStr name = .ok e.name →
+      ∃ t1 t2 dh t3 t4, openRawVolume idx t0 = (.ok t0.nextId, t1) ∧
         openRootDir t0.nextId t1 = (.ok (t0.nextId + 1), t2) ∧
-        openFileInDir (t0.nextId + 1) name .ReadOnly t2 = (.ok (t0.nextId + 2), t3) ∧
-        t3.dev.disk = crashDisk s.dev.disk ws k ∧ t3.dev.wlog = t0.dev.wlog ∧
-        fileLength (t0.nextId + 2) t3 = (.ok e.size, t3) ∧
-        ∀ n, ∃ t4, read (t0.nextId + 2) n t3 = (.ok ((fileContent v0 s.dev.disk cs e.size).take n), t4) ∧
-          t4.dev.disk = crashDisk s.dev.disk ws k ∧ t4.dev.wlog = t0.dev.wlog := by
-  generalize hdk : crashDisk s.dev.disk ws k = dk at hC hmw ⊢
+        openPath (t0.nextId + 1) names t2 = (.ok dh, t3) ∧
+        openFileInDir dh name .ReadOnly t3 = (.ok (t0.nextId + ys.length + 2), t4) ∧
+        t4.dev.disk = dk ∧ t4.dev.wlog = t0.dev.wlog ∧
+        fileLength (t0.nextId + ys.length + 2) t4 = (.ok e.size, t4) ∧
+        ∀ n, ∃ t5, read (t0.nextId + ys.length + 2) n t4 = (.ok ((fileContent v0 s.dev.disk cs e.size).take n), t5) ∧
+          t5.dev.disk = dk ∧ t5.dev.wlog = t0.dev.wlog := by
   have hI := hK.inv
   have hM := medX_of_med hI.med
   have hg0 : WFGeom v0 := hC.geom
   have hft := hK.geom.fatType
-  have hx := hK.obj'
-  obtain ⟨hn0, hn5, hlfn, hplain, hreg, hal, _, hin⟩ := hK.facts hst
-  have hb := hI.med.blocksOK
-  have hbk := hC.blocksOK
+  have hx := hK.obj' hst
+  obtain ⟨hn0, hn5, hlfn, hplain, _, _, _, _⟩ := hK.facts hst
   obtain ⟨_, hCore⟩ := VolCrash.crashInv_iff.1 hC
-  -- the frame
-  have hF : ∀ b i, (∀ L', L' ∈ [L] → ¬ Covers v0 L' b i) → (dk.get b).getD i 0 = (s.dev.disk.get b).getD i 0 := by
-    intro b i hcov
-    rw [← hdk]
-    exact crash_frame hall (hcov L List.mem_cons_self) k
-  have hsp : ∀ L', L' ∈ [L] → Spares v0 L' e.entryBlock e.entryOffset cs := by
-    intro L' hL'
-    rw [List.mem_singleton.1 hL']
-    exact spares_of_avoids hg0 hin hreg hal (avoids_of hwf hnn)
-  obtain ⟨f1, f2, f3, f4⟩ := spared_at hb hbk hF e.entryBlock e.entryOffset cs hsp
-  have hFl : FlushedOn v0 dk e cs := by
-    refine ⟨by rw [f1]; exact hK.flushed.slot, ?_⟩
-    rcases hK.flushed.chain with h1 | h1
-    · exact .inl h1
-    · exact .inr (f3 _ h1)
-  have hcont : ∀ n, fileContent v0 dk cs n = fileContent v0 s.dev.disk cs n := fun n => by unfold fileContent; rw [f4]
-  -- the root chain has only grown
-  have h0k : 0 ∈ dirIds ghk.dirs := zero_mem_dirIds _
-  have hfe : isFixedRoot v0 0 ↔ isFixedRoot gh.vol 0 := by unfold isFixedRoot; rw [hft]
-  have hrck : ¬ isFixedRoot v0 0 → Chain v0 dk (dirHead v0 0) (chainOf ghk.G (dirHead v0 0)) := by
-    intro hf
-    obtain ⟨m2, d2⟩ := VolCrash.Fsck.dirChain_spec hCore h0k hf
-    have c2 := VolCrash.Fsck.lchain hCore m2
-    rw [headD_of_head? d2] at c2
-    exact c2
-  have hdh : dirHead gh.vol 0 = dirHead v0 0 := by
-    obtain ⟨a, b, hv⟩ := hK.geom
-    rw [hv]; rfl
-  have hpre : dirChain gh.vol gh.G 0 <+: dirChain v0 ghk.G 0 := by
-    by_cases hf : isFixedRoot gh.vol 0
+  have hFl : FlushedOn v0 dk e cs := hS.flushed hK.flushed
+  have hcont : ∀ n, fileContent v0 dk cs n = fileContent v0 s.dev.disk cs n := fun n => by unfold fileContent; rw [hS.bytes]
+  -- the chains of the directories have only grown
+  have hpreAll : ∀ q, q ∈ dirIds gh.dirs → q ∈ dirIds ghk.dirs → dirChain gh.vol gh.G q <+: dirChain v0 ghk.G q := by
+    intro q hq hqk
+    have hfe : isFixedRoot v0 q ↔ isFixedRoot gh.vol q := by unfold isFixedRoot; rw [hft]
+    have hdh : dirHead gh.vol q = dirHead v0 q := by
+      obtain ⟨a, b, hv⟩ := hK.geom
+      rw [hv]; rfl
+    by_cases hf : isFixedRoot gh.vol q
     · unfold dirChain; rw [if_pos hf, if_pos (hfe.2 hf)]; exact List.prefix_refl _
-    · have hf0 : ¬ isFixedRoot v0 0 := fun h => hf (hfe.1 h)
-      obtain ⟨m1, d1⟩ := dirChain_spec hM hx.dir hf
+    · have hf0 : ¬ isFixedRoot v0 q := fun h' => hf (hfe.1 h')
+      obtain ⟨m1, d1⟩ := dirChain_spec hM hq hf
       have c1 := med_chain hM m1
       rw [headD_of_head? d1] at c1
-      have c1' : Chain v0 s.dev.disk (dirHead v0 0) (chainOf gh.G (dirHead v0 0)) := by
+      have c1' : Chain v0 s.dev.disk (dirHead v0 q) (chainOf gh.G (dirHead v0 q)) := by
         have := ForestBase.chain_sameGeom hK.geom.symm c1
         rw [hdh] at this
         exact this
-      have hdc1 : dirChain gh.vol gh.G 0 = chainOf gh.G (dirHead v0 0) := by unfold dirChain; rw [if_neg hf, hdh]
-      have hdc2 : dirChain v0 ghk.G 0 = chainOf ghk.G (dirHead v0 0) := by unfold dirChain; rw [if_neg hf0]
+      obtain ⟨m2, d2⟩ := VolCrash.Fsck.dirChain_spec hCore hqk hf0
+      have c2 := VolCrash.Fsck.lchain hCore m2
+      rw [headD_of_head? d2] at c2
+      have hdc1 : dirChain gh.vol gh.G q = chainOf gh.G (dirHead v0 q) := by unfold dirChain; rw [if_neg hf, hdh]
+      have hdc2 : dirChain v0 ghk.G q = chainOf ghk.G (dirHead v0 q) := by unfold dirChain; rw [if_neg hf0]
+      have hdf := hS.dirfat q hq
+      rw [hdc1] at hdf
       rw [hdc1, hdc2]
-      refine chain_prefix c1' (hrck hf0) fun c hc => ?_
-      have hcr : InRange v0 c := ChainL.chain_inRange c1' c (List.dropLast_subset _ hc)
-      have hraw : fatRaw v0 dk c = fatRaw v0 s.dev.disk c :=
-        fatRaw_of_frame hg0 hwf (fun b i hcov => hF b i (fun L' hL' => by rw [List.mem_singleton.1 hL']; exact hcov))
-          hcr (hav c (by rw [hdc1]; exact hc))
-      exact ForestBase.nextOf_congr rfl hraw
-  have hxm : slotOf v0.fatType e ∈ dirSlots v0 dk ghk.G 0 := by
+      exact chain_prefix c1' c2 fun c hc => ForestBase.nextOf_congr rfl (hdf c hc)
+  -- the way to the directory
+  have hP : PathOn v0.fatType ghk.dirs (dirSlots v0 dk ghk.G) 0 ys h := by
+    refine pathOn_next hK.geom.symm (TreeView.of_treeOK hI.med.tree) (TreeView.of_treeLoose hC.tree) hpreAll ?_ hK.path
+      hK.pathNames (zero_mem_dirIds _)
+    intro y hy
+    obtain ⟨q, hq, hyo, _⟩ := hK.path.entry y hy
+    rw [hS.path y hy]
+    exact (dirSlots_bytes (mem_of_mem_objects hyo)).symm
+  have hhk : h ∈ dirIds ghk.dirs := hP.end_mem
+  have hxm : slotOf v0.fatType e ∈ dirSlots v0 dk ghk.G h := by
     have hxs := hx.memSlots
     rw [hft] at hxs
-    refine mem_dirSlots_next hK.geom.symm hxs ?_ hpre
+    refine mem_dirSlots_next hK.geom.symm hxs ?_ (hpreAll h hx.dir hhk)
     show slice (dk.get e.entryBlock) e.entryOffset 32 = e.serialize v0.fatType
     exact hFl.slot
-  have hrc : v0.fatType = .fat32 → Chain v0 dk v0.firstRootDirCluster (chainOf ghk.G v0.firstRootDirCluster) := by
-    intro h32
-    have hf0 : ¬ isFixedRoot v0 0 := fun h => by have := h.2; rw [h32] at this; cases this
-    have := hrck hf0
-    have hd0 : dirHead v0 0 = v0.firstRootDirCluster := by unfold dirHead; rw [if_pos rfl]
-    rw [hd0] at this
-    exact this
-  obtain ⟨r1, r2⟩ := root_read hg0 hFl hst hn0 hn5 hlfn hplain (hK.fit hst) (hC.tree.cleanTail 0 h0k) (hC.tree.names 0 h0k) hxm hrc
-    idx w hmw hsw
-  refine ⟨hbk, hFl, f2, hcont, r1, ?_⟩
-  intro t0 name ht0 hdisk hvols hdirs hfiles hmv hmd hmf hid hname
-  obtain ⟨t1, t2, t3, g1, g2, g3, g4, g5, g6, g7⟩ := r2 t0 name ht0 hdisk hvols hdirs hfiles hmv hmd hmf hid hname
-  refine ⟨t1, t2, t3, g1, g2, g3, g4, g5, g6, fun n => ?_⟩
-  obtain ⟨t4, hr, hd4, hw4⟩ := g7 n
-  refine ⟨t4, ?_, hd4, hw4⟩
+  obtain ⟨r1, r2⟩ := path_read hC hFl hst hn0 hn5 hlfn hplain (hK.fit hst) hP (fun y hy => (hK.pathNames y hy).1) hxm idx w hmw hsw
+  refine ⟨hFl, hcont, hP, r1, ?_⟩
+  intro t0 names name ht0 hdisk hvols hdirs hfiles hmv hmd hmf hid hsp hname
+  obtain ⟨t1, t2, dh, t3, t4, g1, g2, g3, g4, g5, g6, g7, g8⟩ := r2 t0 names name ht0 hdisk hvols hdirs hfiles hmv hmd hmf hid hsp hname
+  refine ⟨t1, t2, dh, t3, t4, g1, g2, g3, g4, g5, g6, g7, fun n => ?_⟩
+  obtain ⟨t5, hr, hd5, hw5⟩ := g8 n
+  refine ⟨t5, ?_, hd5, hw5⟩
   rw [← hcont]; exact hr
 
 /-! ### Histories -/
@@ -135,48 +110,66 @@ def Untouched (h : Nat) (N : Bytes) (pos : Nat × Nat) : Mgr → List Op → Pro
   | _, [] => True
   | s, op :: ops => ¬ Targets s h N pos op ∧ Untouched h N pos (step s op).1 ops
 
-/-- **`Kept` is carried through the history**: the `j`-th call is issued in a `Kept` state and has a licence that is
-well formed, licenses its writes, is `NotNamed` for the file and names no FAT entry of a non-last cluster of the
-directory's chain. -/
-theorem kept_history {v0 : FatVolume} {e : DirEntry} {cs : List Nat} {h : Nat} (hst : Reopen.Storable v0.fatType e) :
-    ∀ (ops : List Op) (s : Mgr) (gh : Ghost), Kept v0 e cs h s gh → FsCoveredRun v0 s ops →
+/-- **`Kept` is carried through the history**: the `j`-th call is issued in a `Kept` state, and every crash point of it
+keeps the file (`SameFile`). -/
+theorem kept_history {v0 : FatVolume} {e : DirEntry} {cs : List Nat} {ys : List Slot} {h : Nat} (hst : Reopen.Storable v0.fatType e) :
+    ∀ (ops : List Op) (s : Mgr) (gh : Ghost), Kept v0 e cs ys h s gh → FsCoveredRun v0 s ops →
       Untouched h e.name (e.entryBlock, e.entryOffset) s ops → ∀ (j : Nat) (op : Op), ops[j]? = some op →
-      ∃ ghj L, Kept v0 e cs h (run s (ops.take j)).1 ghj ∧ LicWF v0 L ∧
-        AllLicensed v0 (run s (ops.take j)).1.dev.disk L (step (run s (ops.take j)).1 op).2.writes ∧
-        NotNamed v0 L e.entryBlock e.entryOffset cs ∧
-        ∀ c, c ∈ (dirChain ghj.vol ghj.G h).dropLast → c ∉ L.fatClusters
+      ∃ ghj, Kept v0 e cs ys h (run s (ops.take j)).1 ghj ∧
+        ∀ k, SameFile v0 e cs ghj ys (run s (ops.take j)).1.dev.disk
+          (crashDisk (run s (ops.take j)).1.dev.disk (step (run s (ops.take j)).1 op).2.writes k)
   | [], _, _, _, _, _, _, _, hj => by simp at hj
   | o :: ops, s, gh, hK, hc, hu, 0, op, hj => by
     have : o = op := by simpa using hj
     subst this
-    obtain ⟨L, _, hall, _, hwf, hnn, hav, _⟩ := kept_step hK hst hc.1 hu.1
-    exact ⟨gh, L, hK, hwf, hall, hnn, hav⟩
+    obtain ⟨hsame, _⟩ := kept_step hK hst hc.1 hu.1
+    exact ⟨gh, hK, hsame⟩
   | o :: ops, s, gh, hK, hc, hu, j + 1, op, hj => by
-    obtain ⟨L, _, _, _, _, _, _, gh', hK', _⟩ := kept_step hK hst hc.1 hu.1
+    obtain ⟨_, _, _, gh', hK', _⟩ := kept_step hK hst hc.1 hu.1
     have := kept_history hst ops (step s o).1 gh' hK' hc.2 hu.2 j op (by simpa using hj)
     rw [List.take_succ_cons, run_cons]
     exact this
 
-/-- … and the state after the whole history is `Kept`. -/
-theorem kept_run {v0 : FatVolume} {e : DirEntry} {cs : List Nat} {h : Nat} (hst : Reopen.Storable v0.fatType e) :
-    ∀ (ops : List Op) (s : Mgr) (gh : Ghost), Kept v0 e cs h s gh → FsCoveredRun v0 s ops →
-      Untouched h e.name (e.entryBlock, e.entryOffset) s ops → ∃ gh', Kept v0 e cs h (run s ops).1 gh'
-  | [], _, gh, hK, _, _ => ⟨gh, hK⟩
-  | o :: ops, s, gh, hK, hc, hu => by
-    obtain ⟨L, _, _, _, _, _, _, gh', hK', _⟩ := kept_step hK hst hc.1 hu.1
-    rw [run_cons]
-    exact kept_run hst ops (step s o).1 gh' hK' hc.2 hu.2
-
-/-- **The syntactic criterion**: the licences of a covered history that never targets the file are all `NotNamed` for
-it. -/
-theorem kept_runLicensed {v0 : FatVolume} {e : DirEntry} {cs : List Nat} {h : Nat} (hst : Reopen.Storable v0.fatType e) :
-    ∀ (ops : List Op) (s : Mgr) (gh : Ghost), Kept v0 e cs h s gh → FsCoveredRun v0 s ops →
+/-- … the state after the whole history is `Kept`, and its medium keeps the file. -/
+theorem kept_run {v0 : FatVolume} {e : DirEntry} {cs : List Nat} {ys : List Slot} {h : Nat} (hst : Reopen.Storable v0.fatType e) :
+    ∀ (ops : List Op) (s : Mgr) (gh : Ghost), Kept v0 e cs ys h s gh → FsCoveredRun v0 s ops →
       Untouched h e.name (e.entryBlock, e.entryOffset) s ops →
-      ∃ Ls, RunLicensed v0 s ops Ls ∧ ∀ L, L ∈ Ls → NotNamed v0 L e.entryBlock e.entryOffset cs
-  | [], s, _, _, _, _ => ⟨[], .nil s, fun _ hL => nomatch hL⟩
+      (∃ gh', Kept v0 e cs ys h (run s ops).1 gh') ∧
+      (∀ x, x ∈ cs → fatRaw v0 (run s ops).1.dev.disk x = fatRaw v0 s.dev.disk x) ∧
+      ∀ n, fileContent v0 (run s ops).1.dev.disk cs n = fileContent v0 s.dev.disk cs n
+  | [], _, gh, hK, _, _ => ⟨⟨gh, hK⟩, fun _ _ => rfl, fun _ => rfl⟩
   | o :: ops, s, gh, hK, hc, hu => by
-    obtain ⟨L, hl, hall, hd, _, hnn, _, gh', hK', _⟩ := kept_step hK hst hc.1 hu.1
-    obtain ⟨Ls, hR, hall'⟩ := kept_runLicensed hst ops (step s o).1 gh' hK' hc.2 hu.2
+    obtain ⟨hsame, hd, _, gh', hK', _⟩ := kept_step hK hst hc.1 hu.1
+    rw [run_cons]
+    obtain ⟨r1, r2, r3⟩ := kept_run hst ops (step s o).1 gh' hK' hc.2 hu.2
+    have hS := (hsame (step s o).2.writes.length).congr (d' := (step s o).1.dev.disk)
+      (fun i => by rw [hd i]; unfold crashDisk; rw [List.take_length])
+    refine ⟨r1, fun x hx => (r2 x hx).trans (hS.fat x hx), fun n => (r3 n).trans ?_⟩
+    unfold fileContent
+    rw [hS.bytes]
+
+theorem fsCoveredRun_take (v0 : FatVolume) : ∀ (ops : List Op) (s : Mgr), FsCoveredRun v0 s ops → ∀ j, FsCoveredRun v0 s (ops.take j)
+  | [], _, _, _ => by simp [FsCoveredRun]
+  | _ :: _, _, _, 0 => trivial
+  | o :: ops, s, h, j + 1 => ⟨h.1, fsCoveredRun_take v0 ops _ h.2 j⟩
+
+theorem untouched_take (h : Nat) (N : Bytes) (pos : Nat × Nat) : ∀ (ops : List Op) (s : Mgr), Untouched h N pos s ops →
+    ∀ j, Untouched h N pos s (ops.take j)
+  | [], _, _, _ => by simp [Untouched]
+  | _ :: _, _, _, 0 => trivial
+  | o :: ops, s, hu, j + 1 => ⟨hu.1, untouched_take h N pos ops _ hu.2 j⟩
+
+/-- **The syntactic criterion**: if no handle at the slot has unflushed changes, the licences of a covered history that
+never targets the file are all `NotNamed` for it. -/
+theorem kept_runLicensed {v0 : FatVolume} {e : DirEntry} {cs : List Nat} {ys : List Slot} {h : Nat} (hst : Reopen.Storable v0.fatType e) :
+    ∀ (ops : List Op) (s : Mgr) (gh : Ghost), Kept v0 e cs ys h s gh → FsCoveredRun v0 s ops →
+      Untouched h e.name (e.entryBlock, e.entryOffset) s ops → CleanAt s (e.entryBlock, e.entryOffset) →
+      ∃ Ls, RunLicensed v0 s ops Ls ∧ ∀ L, L ∈ Ls → NotNamed v0 L e.entryBlock e.entryOffset cs
+  | [], s, _, _, _, _, _ => ⟨[], .nil s, fun _ hL => nomatch hL⟩
+  | o :: ops, s, gh, hK, hc, hu, hcl => by
+    obtain ⟨_, hd, hlic, gh', hK', hcl', _⟩ := kept_step hK hst hc.1 hu.1
+    obtain ⟨L, hl, hall, hnn⟩ := hlic hcl
+    obtain ⟨Ls, hR, hall'⟩ := kept_runLicensed hst ops (step s o).1 gh' hK' hc.2 hu.2 (hcl' hcl)
     refine ⟨L :: Ls, .cons s o ops L Ls gh hK.inv hK.geom hl hall hd hR, ?_⟩
     intro L' hL'
     rcases List.mem_cons.1 hL' with e1 | e1
@@ -222,14 +215,14 @@ theorem not_targets_of_ro {s : Mgr} {h : Nat} {N : Bytes} {pos : Nat × Nat} {op
 
 /-- **If only read-only handles refer to the file (for instance none: it is closed) and the history never opens it in
 another mode and never deletes it, the history never targets it.** -/
-theorem untouched_of_neverOpened {v0 : FatVolume} {e : DirEntry} {cs : List Nat} {h : Nat} (hst : Reopen.Storable v0.fatType e) :
-    ∀ (ops : List Op) (s : Mgr) (gh : Ghost), Kept v0 e cs h s gh → FsCoveredRun v0 s ops →
+theorem untouched_of_neverOpened {v0 : FatVolume} {e : DirEntry} {cs : List Nat} {ys : List Slot} {h : Nat} (hst : Reopen.Storable v0.fatType e) :
+    ∀ (ops : List Op) (s : Mgr) (gh : Ghost), Kept v0 e cs ys h s gh → FsCoveredRun v0 s ops →
       (∀ f, f ∈ s.files → fkey f = (e.entryBlock, e.entryOffset) → f.mode = .ReadOnly) → NeverOpened h e.name s ops →
       Untouched h e.name (e.entryBlock, e.entryOffset) s ops
   | [], _, _, _, _, _, _ => trivial
   | o :: ops, s, gh, hK, hc, hro, hn => by
     have hnt := not_targets_of_ro hro hn.1
-    obtain ⟨L, _, _, _, _, _, _, gh', hK', hro'⟩ := kept_step hK hst hc.1 hnt
+    obtain ⟨_, _, _, gh', hK', _, hro'⟩ := kept_step hK hst hc.1 hnt
     exact ⟨hnt, untouched_of_neverOpened hst ops (step s o).1 gh' hK' hc.2
       (hro' hro (fun ho => hn.1 (modifies_of_opens ho))) hn.2⟩
 
